@@ -1,2 +1,114 @@
+"""./check replay <file>: re-run one recorded case against /repo's current working tree."""
+import os, sys, json, subprocess, shutil
+from . import ws, batch
+from .ws import log
+
+
+def _specs_of(rec):
+    if rec.get("kind") in ("group",) or (rec.get("kind") == "types" and "group" in rec):
+        return [m["spec"] for m in rec["group"]]
+    if "spec" in rec and rec["spec"]:
+        return [rec["spec"]]
+    return []
+
+
 def run(path):
-    raise SystemExit(2)
+    with open(path) as f:
+        rec = json.load(f)
+    prop = rec.get("property")
+    kind = rec.get("kind", "case")
+    if prop is None:
+        print("not a replay record")
+        return 2
+    # in-process engine
+    if (prop in ("C11", "C12", "C18")) or (prop == "C15" and kind == "compile") or (prop == "C04" and kind == "runtime"):
+        if not ws.build_tools(("front",)):
+            return 2
+        wd = os.path.join(ws.WORK, "replaytmp")
+        os.makedirs(wd, exist_ok=True)
+        p = subprocess.run([ws.tool("front"), "replay", path, "--workdir", wd], stdout=subprocess.PIPE, stderr=subprocess.PIPE, text=True, timeout=1800)
+        shutil.rmtree(wd, ignore_errors=True)
+        if p.returncode == 1:
+            print("VIOLATION property=%s replay=%s" % (prop, path))
+            print(p.stdout.strip()[:2000])
+            return 1
+        if p.returncode == 0:
+            print("replay: property held for the recorded case")
+            return 0
+        log(p.stderr[-1000:])
+        return 2
+    specs = _specs_of(rec)
+    if not specs:
+        # records without a grammar spec (process-level routes): re-run the quick check of that property
+        log("replay: record carries no grammar spec; re-running the quick check of %s" % prop)
+        from . import main
+        return main.main([prop, "quick"], locked=True)
+    if not ws.build_tools(("genner",)):
+        return 2
+    # one-grammar (or one-group) batch built with the tree's generator
+    specs2 = []
+    for i, s in enumerate(specs):
+        s = dict(s)
+        fl = dict(s.get("flags") or {})
+        # models in replay records already contain the wrapper rules
+        if any(("Normal" in r and r["Normal"]["name"].startswith("W_")) for r in s["model"]["rules"]):
+            fl["no_wrappers"] = True
+        s["flags"] = fl
+        s["id"] = "r%04d" % i
+        specs2.append(s)
+    out = os.path.join(ws.WS, "batch", "replay")
+    shutil.rmtree(out, ignore_errors=True)
+    os.makedirs(out)
+    sf = os.path.join(ws.WORK, "replay_specs.json")
+    with open(sf, "w") as f:
+        json.dump(specs2, f)
+    env = dict(os.environ)
+    env["VERIF_REPO_PATH"] = ws.REPO
+    plan = "macro" if any((s.get("flags") or {}).get("via_macro") for s in specs2) else "replay"
+    p = subprocess.run([ws.tool("genner"), "one", "--spec", sf, "--out", out, "--plan", plan, "--crates", "1"], env=env, stdout=subprocess.PIPE, stderr=subprocess.PIPE, text=True)
+    if p.returncode != 0:
+        log(p.stderr[-2000:])
+        return 2
+    with open(os.path.join(out, "failures.json")) as f:
+        fails = json.load(f)
+    if fails:
+        print("VIOLATION property=%s replay=%s" % (prop, path))
+        print("the code generator rejects / panics on the recorded grammar: %s" % fails[0]["message"][:300])
+        return 1
+    rc, errors, other = batch.build(out)
+    if errors:
+        print("VIOLATION property=%s replay=%s" % (prop, path))
+        for g, e in errors.items():
+            print("generated code does not compile: %s" % e[0][:300])
+        return 1
+    if rc != 0:
+        log("replay batch build failed: %s" % other[:3])
+        return 2
+    if prop == "C03":
+        print("replay: the recorded grammar compiles (with its exact-type assertions)")
+        return 0
+    partials, hangs, died = batch.run_wave(prop, out, 1, 1, 64, extra=("--replay", path))
+    if hangs:
+        print("VIOLATION property=%s replay=%s" % (prop, path))
+        print("the recorded case does not terminate")
+        return 1
+    if died or not partials:
+        log("replay process died")
+        return 2
+    m = batch.merge(partials)
+    # show where the generated code is, formatted, for inspection
+    for c in batch.crates_of(out):
+        for fn in sorted(os.listdir(os.path.join(out, c, "src"))):
+            if fn.startswith("r") and fn.endswith(".rs") and "_glue" not in fn:
+                src = os.path.join(out, c, "src", fn)
+                pretty = os.path.join(ws.WORK, "replay_" + fn)
+                shutil.copyfile(src, pretty)
+                subprocess.run(["rustfmt", "--edition", "2021", pretty], stdout=subprocess.DEVNULL, stderr=subprocess.DEVNULL)
+                log("generated code (formatted): %s" % pretty)
+    if m["violations"]:
+        print("VIOLATION property=%s replay=%s" % (prop, path))
+        for v in m["violations"][:3]:
+            print(json.dumps({k: v.get(k) for k in ("message", "expected", "observed")}, ensure_ascii=False)[:1500])
+        return 1
+    print("replay: property held for the recorded case (%d evaluation(s))" % m["evaluations"])
+    return 0
